@@ -110,6 +110,10 @@ func (c11) Gen(tier string, seed int64, emit func([]Ev)) {
 				}
 			}
 		}
+		// the library's own PES creation option, end to end: Create(pid, WithPES(pts)) -> PESHeader -> NewPESHeader
+		for k := 0; k < 120; k++ {
+			emit([]Ev{{"op": "withpes", "pid": r.Intn(8192), "pts": W64(c11Time(r))}})
+		}
 		// transport packets carrying PES starts (and near misses)
 		for k := 0; k < 400; k++ {
 			afLen := -1
@@ -160,6 +164,18 @@ func (c11) Exec(h []Ev) []Ev {
 	for _, e := range h {
 		e["panic"] = guard(func() {
 			switch GS(e["op"]) {
+			case "withpes":
+				pts := UW64(e["pts"])
+				p := packet.Create(GI(e["pid"]), packet.WithPUSI, func(q *packet.Packet) { packet.WithPES(q, pts) })
+				e["pkt"] = B(p[:])
+				hb, err := packet.PESHeader(p)
+				e["hdr_err"] = err != nil
+				e["haspts"], e["pts_back"] = false, W64(0)
+				if err == nil {
+					if hd, herr := pes.NewPESHeader(hb); herr == nil {
+						e["haspts"], e["pts_back"] = hd.HasPTS(), W64(hd.PTS())
+					}
+				}
 			case "pes":
 				b := GB(e["bytes"])
 				keep := append([]byte(nil), b...)
@@ -188,6 +204,9 @@ func (c11) Exec(h []Ev) []Ev {
 }
 
 func (c11) Class(e Ev) string {
+	if GS(e["op"]) == "withpes" {
+		return "withpes"
+	}
 	if GS(e["op"]) == "tspes" {
 		return fmt.Sprintf("tspes/hdr%v/aligned%v", !GBool(e["hdr_err"]), GBool(e["aligned_ok"]))
 	}
